@@ -38,6 +38,7 @@ fn main() {
         "svg" => fqv::scen_render::svg(&mut sink, seed, thorough),
         "frames" => fqv::scen_render::frames(&mut sink, seed, thorough),
         "histories" => fqv::scen_hist::histories(&mut sink, &arg(&args, "--replay-in", ""), arg(&args, "--grp0", "0").parse().unwrap_or(0)),
+        "soak" => fqv::scen_hist::soak(&mut sink, seed, thorough),
         "threads" => fqv::scen_hist::threads(&mut sink, seed, thorough, 1_000_000),
         "fileio" => fqv::scen_file::fileio(&mut sink, seed, thorough, &arg(&args, "--replay-in", "")),
         "sessions" => fqv::scen_render::sessions(&mut sink, seed, thorough, &arg(&args, "--alphabet", ""), &arg(&args, "--replay-in", "")),
